@@ -26,20 +26,31 @@ MODULE = 'PyPhysim.Properties.C06'
 DRIVER = 'drv_c06'
 
 CLAIM = {
-    'technique': 'Lean 4 proof (monoid homomorphism, merge-tree induction, heap frame/separation invariant)',
-    'text': 'Kernel-checked theorems about an executable model of Result.update/merge, '
-            'SimulationResults.merge_all_results/append_all_results and combine_simulation_results: for every '
-            'observation sequence, every split into chunks and every merge tree the merged object equals the '
-            'object that accumulated the whole sequence (all attributes, hence value, total, count, mean, '
-            'variance), lifted per result name and per parameter combination, and a frame theorem on an explicit '
-            'heap showing merge_all_results / combine never write to an object of the merged-in operand, for every '
-            'later history of merges.  The model is tied to the source by an exact differential run of seeded '
-            'scripts (attributes of every reachable object and the sharing structure compared).',
-    'note': 'Hand model (no regeneration): a behaviour the generators do not reach is not tied. MISC values are '
-            'numbers in the model. Not modelled: unknown type codes, numpy-scalar observations (inf/nan instead of '
-            'ZeroDivisionError), non-integer parameter values, JSON/pickle paths (C17). The non-terminating '
-            'append_all_results(self) is modelled (Fuel) but never executed on the code. Known finding: merging a '
-            'never-updated MISC result resets the value.',
+    'technique': 'Lean 4 proof (monoid homomorphism, merge-tree induction, heap frame + separation invariant)',
+    'text': 'Kernel-checked theorems about an executable model of Result.update/merge/observers, '
+            'SimulationResults.merge_all_results/append_all_results and combine_simulation_results (source after '
+            'the fix: commits of findings/C06.json): for EVERY observation sequence, EVERY split into contiguous chunks and EVERY '
+            'merge tree, the merged object equals attribute by attribute the object that accumulated the whole '
+            'sequence (SUM, RATIO, CHOICE, accumulation on/off), hence same value, total, count, mean, variance, '
+            '==; MISC: last observation wins iff the last chunk is non-empty (negative witness for the empty chunk); '
+            'the attributes are the first-principles sums (variance = population variance); merge_all_results is '
+            'that law per name, merging into an empty object is a deep copy, and on an explicit heap of shared '
+            'objects a frame theorem + separation invariant show that no object of a merged-in operand is written, '
+            'for every later history of merges/updates (negative witness for the pre-fix aliasing); '
+            'combine_simulation_results: union grid, row-major index, per-combination cell = accumulation of both '
+            'operands\' observations, operands untouched.  The hand model is tied to the source by an exact '
+            'differential run of seeded scripts comparing every attribute of every reachable object and the '
+            'sharing structure.',
+    'note': 'Hand model (no regeneration): a behaviour the generators do not reach is not tied; the thorough '
+            'tier additionally enumerates all merge trees with <= 4 leaves over sequences of length <= 4. '
+            'Partial: the outer loop of append_all_results (AppendAllConcatStatement) is proved only per name '
+            '(append_extends_list, append_new_name_creates_list); the num_skipped_reps tail of merge_all_results '
+            'is covered by the frame theorems and one decided instance. MISC values are numbers in the model. Not '
+            'modelled: unknown type codes, numpy-scalar observations, non-integer parameter values, parameter '
+            'values that are not 1-D integer arrays, JSON/pickle paths (C17). The non-terminating '
+            'append_all_results(self) is modelled (Fuel) but never executed on the code. Observer outputs '
+            '(get_result/mean/var divide in binary64) are compared with rtol 1e-9, everything else exactly. '
+            'Known finding: merging a never-updated MISC result resets the value.',
 }
 
 TY = {'sum': 0, 'ratio': 1, 'misc': 2, 'choice': 3}
@@ -656,8 +667,9 @@ def check_stats(r, ty, cn, obs, acc):
     if ty == TY['misc']:
         if obs and fr(r._value) != e['value']:
             return 'MISC value %s, last observation %s' % (r._value, e['value'])
-        if obs and fr(r.get_result()) != e['value']:
-            return 'MISC get_result %s, last observation %s' % (r.get_result(), e['value'])
+        g = r.get_result()
+        if obs and (isinstance(g, str) or fr(g) != e['value']):
+            return 'MISC get_result %s, last observation %s' % (g, e['value'])
         if acc and [fr(v) for v in r._value_list] != [Fraction(v) for v, _ in obs]:
             return 'MISC value_list differs from the observation sequence'
         return None
@@ -733,7 +745,7 @@ def o_partition(case):
         return '%s:merge:exception:%s' % (tn, type(e).__name__), repr(e)[:300]
     if ty == TY['misc']:
         d = check_stats(merged, ty, cn, obs, acc)
-        if d is None and obs and merged.get_result() != whole.get_result():
+        if d is None and obs and show_get(merged) != show_get(whole):
             d = 'get_result differs: merged %r whole %r' % (merged.get_result(), whole.get_result())
         if d:
             if misc_empty_after_data(t):
@@ -758,14 +770,15 @@ def o_partition(case):
     return None
 
 
-def build_sim(specs, chunks, with_names=None):
-    """a SimulationResults with one Result per name holding the chunk's observations"""
+def build_sim(specs, chunks, prefix=None):
+    """a SimulationResults with one Result per name holding the chunk's observations, optionally
+    behind earlier results of the same name (results of other parameter variations)"""
     res, _ = _impl()
     s = res.SimulationResults()
     for nm, ty, acc, cn in specs:
-        if with_names is not None and nm not in with_names:
-            continue
-        s.add_result(feed(make_result(ty, acc, cn, nm), chunks[nm]))
+        for ob in (prefix or {}).get(nm, []):
+            s.append_result(feed(make_result(ty, acc, cn, nm), [tuple(o) for o in ob]))
+        s.append_result(feed(make_result(ty, acc, cn, nm), chunks[nm]))
     return s
 
 
@@ -782,10 +795,12 @@ def o_mergeall(case):
     # the number of observations of every name is the same (one per repetition); chunk = slice
     operands = []     # (object, snapshot, left-was-empty)
 
-    def ev(t):
+    prefix = case.get('prefix') or {}
+
+    def ev(t, leftmost=False):
         if t[0] == 'L':
-            return build_sim(specs, {nm: obs[nm][t[1]:t[2]] for nm in obs})
-        a = ev(t[1])
+            return build_sim(specs, {nm: obs[nm][t[1]:t[2]] for nm in obs}, prefix if leftmost else None)
+        a = ev(t[1], leftmost)
         b = ev(t[2])
         operands.append((b, sim_state(b), len(a) == 0))
         a.merge_all_results(b)
@@ -805,7 +820,7 @@ def o_mergeall(case):
                 operands.append((b, sim_state(b), len(top) == 0))
                 top.merge_all_results(b)
         else:
-            top = ev(t)
+            top = ev(t, True)
     except Exception as e:
         return 'exception:%s' % type(e).__name__, repr(e)[:300]
     for b, snap, into_empty in operands:
@@ -814,11 +829,15 @@ def o_mergeall(case):
                     'a merged-in SimulationResults changed after it was merged')
     for nm, ty, acc, cn in specs:
         lst = top[nm]
-        if len(lst) != 1:
+        pre = [] if case.get('into_empty') else prefix.get(nm, [])
+        if len(lst) != 1 + len(pre):
             return 'shape', '%d results for %s' % (len(lst), nm)
-        if ty == TY['misc']:
-            continue
-        d = check_stats(lst[0], ty, cn, obs[nm], acc)
+        # only the last result of a name takes part in the merge; earlier ones stay as they are
+        for r, ob in zip(lst[:-1], pre):
+            d = check_stats(r, ty, cn, [tuple(o) for o in ob], acc)
+            if d:
+                return '%s:earlier-result-changed' % TYN[ty], '%s: %s' % (nm, d)
+        d = check_stats(lst[-1], ty, cn, obs[nm], acc)
         if d:
             return '%s:merged-differs' % TYN[ty], '%s: %s' % (nm, d)
     return None
@@ -991,7 +1010,12 @@ def gen_mergeall_case(rng, nmax):
             o = [[v, t[1:] if t.startswith('-') else t] for v, t in o]
         obs[nm] = o
     tree = gen_tree(rng, n, 6, allow_empty=False)
-    return {'specs': specs, 'obs': obs, 'tree': tree, 'into_empty': rng.chance(0.5)}
+    into_empty = rng.chance(0.5)
+    prefix = {}
+    if not into_empty and rng.chance(0.5):
+        for nm, ty, acc, cn in specs:
+            prefix[nm] = [gen_obs_list(rng, ty, cn, rng.randint(1, 3)) for _ in range(rng.randint(1, 2))]
+    return {'specs': specs, 'obs': obs, 'tree': tree, 'into_empty': into_empty, 'prefix': prefix}
 
 
 def gen_appendall_case(rng):
@@ -1149,7 +1173,7 @@ def corr_float_stream(ctx, drv, count):
 
 def correspondence(ctx, quick):
     drv = core.Driver(DRIVER)
-    k = 1 if quick else 12
+    k = 4 if quick else 40
     corr_scripts(ctx, drv, 'Result.script', gen_result_script, 600 * k, long=not quick)
     corr_scripts(ctx, drv, 'SimulationResults.script', gen_sim_script, 500 * k, long=not quick)
     corr_scripts(ctx, drv, 'combine.script', gen_combine_script, 300 * k, long=not quick)
@@ -1157,31 +1181,21 @@ def correspondence(ctx, quick):
     corr_float_stream(ctx, drv, 100 * k)
 
 
-# ------------------------------------------------------------------ fixed witnesses (also proved in Lean)
+# ------------------------------------------------------------------ corpus (witnesses also proved in Lean, past failures)
 def witnesses(ctx):
-    # merge into an empty object, then merge again: the first operand must not move
-    run_oracle(ctx, 'SimulationResults.merge_all_results',
-               {'specs': [['a', 0, False, 1]], 'obs': {'a': [['3', '-'], ['5', '-'], ['7', '-']]},
-                'tree': ['N', ['N', ['L', 0, 1], ['L', 1, 2]], ['L', 2, 3]], 'into_empty': True}, key='w-alias')
-    # CHOICE results can be updated at all
-    run_oracle(ctx, 'Result.merge', {'ty': 3, 'acc': True, 'cn': 4, 'obs': [['1', '-'], ['3', '-'], ['1', '-']],
-                                     'tree': ['N', ['L', 0, 1], ['L', 1, 3]]}, key='w-choice')
-    # MISC: a never-updated operand resets the value (known finding)
-    run_oracle(ctx, 'Result.merge', {'ty': 2, 'acc': False, 'cn': 1, 'obs': [['7', '-']],
-                                     'tree': ['N', ['L', 0, 1], ['L', 1, 1]]}, key='w-misc-empty')
-    # combine: CHOICE results, and parameter sets without unpacked parameter
-    run_oracle(ctx, 'combine_simulation_results',
-               {'specs': [['a', 3, False, 3]], 'pnames': ['p'], 'grids': [[[1, 2]], [[2, 3]]],
-                'cells': [{'a': {'1': [['0', '-']], '2': [['1', '-'], ['2', '-']]}},
-                          {'a': {'2': [['2', '-']], '3': []}}], 'fixed': [['f', 3]]}, key='w-combine-choice')
-    run_oracle(ctx, 'combine_simulation_results',
-               {'specs': [['a', 0, False, 1]], 'pnames': [], 'grids': [[], []],
-                'cells': [{'a': {'': [['4', '-']]}}, {'a': {'': [['5', '-'], ['6', '-']]}}], 'fixed': [['f', 3]]},
-               key='w-combine-nounpack')
+    import glob
+    import json
+    import os
+    d = os.path.join(core.VERIF, 'corpus', 'c06')
+    for fn in sorted(glob.glob(os.path.join(d, '*.json'))):
+        with open(fn) as f:
+            w = json.load(f)
+        run_oracle(ctx, w['call'], w['case'], key='corpus:' + os.path.basename(fn))
+        ctx.branch('corpus')
 
 
 def oracles(ctx, quick):
-    k = 1 if quick else 15
+    k = 4 if quick else 40
     nmax = 40 if quick else 150
     for _ in range(500 * k):
         case = gen_partition_case(ctx.rng, nmax)
@@ -1243,7 +1257,7 @@ def check(ctx):
                 'ill-formed operands); merge trees over random contiguous splits (length 0-40 quick / 0-150 '
                 'thorough); non-trivial = distinct script with >= 4 ops / distinct case with >= 2 observations')
     core.prove(ctx, MODULE, generated=[], drivers=[DRIVER], scratch=ctx.scratch)
-    ctx.required_branches = ['op:ma', 'op:aa', 'op:cb', 'op:m', 'op:u', 'tree:sum', 'tree:ratio', 'tree:misc',
+    ctx.required_branches = ['corpus', 'op:ma', 'op:aa', 'op:cb', 'op:m', 'op:u', 'tree:sum', 'tree:ratio', 'tree:misc',
                              'tree:choice', 'err:AssertionError', 'err:ZeroDivisionError', 'err:ValueError',
                              'err:IndexError', 'err:KeyError', 'err:RuntimeError',
                              'partition:choice', 'combine:nunp=0', 'combine:nunp=2']
